@@ -172,6 +172,8 @@ TABLE = [
     ('sum(txn.amount for txn in orders)', 38.5), ('[txn.qty for txn in orders]', [2, 1, 5]), ('len([field for field in orders if field.id == "78"])', 1),
     ('sum(Txn.amount for Txn in orders)', 38.5), ('[FIELD.qty for FIELD in orders]', [2, 1, 5]), ('sum(TXN.amount for txn in orders)', 38.5),
     ('sum(txn.amount for txn in orders) > 0 and txn.amount == 15.5', True), ('len([field.id for field in orders]) == 3 and field.kind == "wire"', True),
+    # an optional group that takes no part in the match: extract() returns text ("empty string if no match or no capture group"), never None
+    ('extract("COM(X)?")', ''), ('extract("COM(X)?") == ""', True), ('extract(field.code, "AB(-99)?")', ''), ('extract("COM( \\d+)?")', ' 0012'),
     ('"a" in [r.id for r in empty]', False), ('field.kind in [r.kind for r in dated]', True), ('field.kind not in [r.kind for r in dated]', False),
 ]
 
